@@ -113,14 +113,14 @@ def atom_id(x):
     if x is None:
         return NONE_ATOM
     if isinstance(x, bool):
-        raise ValueError("bool atom")
+        return hashed_atom(x)
     if type(x) is int:
         if not -1000 <= x <= 1000:
             return hashed_atom(x)
         return x
     if type(x) is float:
         if x != x:
-            raise ValueError("nan atom")
+            return hashed_atom(x)
         if x in (float("inf"), float("-inf")) or abs(x) > 1000 or x * 16 != int(x * 16) or (x == 0 and str(x)[0] == "-"):
             return hashed_atom(x)
         return FLOAT_BASE + int(x * 16)
@@ -514,7 +514,7 @@ def inst_mutables(x, acc=None, through_class=False):
 def numeric_kind(x):
     if isinstance(x, array.array):
         return "f" if x.typecode in "fd" else ("u" if x.typecode in "BHILQ" else "i")
-    return "f" if x.dtype.kind == "f" else "i"
+    return "f" if x.dtype.kind == "f" else ("u" if x.dtype.kind == "u" else "i")
 
 
 def apply_mutation(x, k, m):
@@ -561,6 +561,12 @@ def apply_mutation(x, k, m):
         raise ValueError(k)
 
 
+def odd_values():
+    """immutable values of unusual type / magnitude (value domains): used as list items, dict values and attributes"""
+    return [2 ** 53 + 1, -(10 ** 30), 2 ** 64 + 3, numpy.float64(0.1), numpy.int64(7), numpy.float32(0.1), numpy.int8(-3), -0.0,
+            float("inf"), float("nan"), True, False, 0.1, 1e-9, 1e9 + 1e-3, 1.0 + 2.0 ** -40, 5e-324, 1, 1.0]
+
+
 HUGE_INTS = [2 ** 53 + 1, -(2 ** 53 + 1), 2 ** 53, 2 ** 64 + 3, 10 ** 30, -(10 ** 30) - 7]
 
 
@@ -601,12 +607,18 @@ def choose_mutation(rng, x, k, fresh):
                  ("setitems", [6001, 6003])]
     elif k in (K_ARRAY, K_BUF) and isinstance(x, array.array):
         nk = numeric_kind(x)
-        mk = (lambda: fl(rng.randint(-40, 40))) if nk == "f" else \
+
+        def oddf():
+            v = rng.choice([0.1, 1.0 / 3.0, 1e-9, 1e9 + 1e-3, -0.0, 1.0 + 2.0 ** -20])
+            return atom_id(float(numpy.float32(v)) if x.typecode == "f" else v)
+        mk = (lambda: oddf() if rng.random() < 0.3 else fl(rng.randint(-40, 40))) if nk == "f" else \
             ((lambda: rng.randint(0, 100)) if nk == "u" else (lambda: rng.randint(-100, 100)))
         opts += [("append", [mk()]), ("setitems", [mk() for _ in range(rng.randint(0, 3))])]
     elif k in (K_ND, K_BUF):
         if len(x) > 0 and x.ndim == 1:
-            mk = (lambda: fl(rng.randint(-40, 40))) if numeric_kind(x) == "f" else (lambda: rng.randint(-100, 100))
+            nk = numeric_kind(x)
+            mk = (lambda: fl(rng.randint(-40, 40))) if nk == "f" else \
+                ((lambda: rng.randint(0, 100)) if nk == "u" else (lambda: rng.randint(-100, 100)))
             opts += [("setitems", [mk() for _ in range(len(x))])]
     elif k in (K_SET, K_PYSET):
         big = max([atom_id(e) for e in x] + [0])
@@ -634,6 +646,19 @@ def choose_mutation(rng, x, k, fresh):
 # ------------------------------------------------------------------------------------------------
 # fresh interpreter side
 # ------------------------------------------------------------------------------------------------
+def redefine_classes(names):
+    """Define the given creator names again, differently (state carried by deap.creator's globals): fitness classes get
+    other weights, the others become list-based with another class-level attribute.  names: [[name, is_fitness, nobj]]"""
+    from deap import base, creator
+    with warnings.catch_warnings():
+        warnings.simplefilter("ignore")
+        for name, is_fit, nobj in names:
+            if is_fit:
+                creator.create(name, base.Fitness, weights=tuple([-7.0] * nobj))
+            else:
+                creator.create(name, list, x4=-999, x33=list)
+
+
 def fresh_main(inp, outp):
     warnings.simplefilter("ignore")
     pset()
@@ -641,7 +666,10 @@ def fresh_main(inp, outp):
     out = []
     for j in jobs:
         try:
-            x = pickle.loads(base64.b64decode(j["blob"]))
+            if j.get("predefine"):
+                redefine_classes(j["predefine"])
+            loads = pickle._loads if j.get("impl") == "py" else pickle.loads
+            x = loads(base64.b64decode(j["blob"]))
             if j["what"] == "object":
                 objs, rv, _ = describe([x])
                 out.append({"ok": True, "objs": objs, "roots": rv, "snapshot": repr(snapshot(x)),
@@ -719,6 +747,8 @@ def main(run):
         """a small nested mutable Python value"""
         r = rng.random()
         if depth == 0 or r < 0.25:
+            if rng.random() < 0.2:
+                return atom_id(rng.choice(odd_values()))
             return rng.choice([rng.randint(-9, 9), fl(rng.randint(-8, 8)), 3000 + rng.randint(0, 5), 4000 + rng.randint(0, 3), NONE_ATOM])
         if r < 0.6:
             return ["L"] + [mk_nested(depth - 1) for _ in range(rng.randint(0, 3))]
@@ -726,8 +756,10 @@ def main(run):
             return ["D"] + [(3000 + i, mk_nested(depth - 1)) for i in range(rng.randint(0, 2))]
         if r < 0.9:
             return ["S"] + sorted(set(rng.randint(-9, 9) for _ in range(rng.randint(0, 3))))
-        if r < 0.95:
+        if r < 0.94:
             return ["AR", [fl(rng.randint(-8, 8)) for _ in range(rng.randint(0, 3))]]
+        if r < 0.97:
+            return ["ND32", [fl(rng.randint(-8, 8)) for _ in range(rng.randint(1, 3))]]
         return ["ND", [rng.randint(-9, 9) for _ in range(rng.randint(1, 3))]]
 
     def build(spec):
@@ -742,23 +774,33 @@ def main(run):
             return set(py_atom(z) for z in spec[1:])
         if t == "AR":
             return array.array("d", [py_atom(z) for z in spec[1]])
+        if t == "ND32":
+            return numpy.array([py_atom(z) for z in spec[1]], dtype=numpy.float32)
         return numpy.array([py_atom(z) for z in spec[1]])
 
     def content_for(code, tc=None, n=None):
         """atom ids for the constructor argument of a class with base `code`"""
         n = rng.randint(0, 4) if n is None else n
         if code == 1:
-            return [rng.choice([rng.randint(-9, 9), fl(rng.randint(-8, 8))]) for _ in range(n)]
+            return [atom_id(rng.choice(odd_values())) if rng.random() < 0.15 else rng.choice([rng.randint(-9, 9), fl(rng.randint(-8, 8))])
+                    for _ in range(n)]
         if code == 2:
             if tc in ("d", "f"):
-                return [fl(rng.randint(-40, 40)) for _ in range(n)]
+                odd = [0.1, 1.0 / 3.0, 1e-9, 1e9 + 1e-3, -0.0, 1.0 + 2.0 ** -20]
+                return [atom_id(float(numpy.float32(rng.choice(odd))) if tc == "f" else rng.choice(odd)) if rng.random() < 0.2
+                        else fl(rng.randint(-40, 40)) for _ in range(n)]
             if tc == "H":
                 return [rng.randint(0, 100) for _ in range(n)]
             return [rng.randint(-100, 100) for _ in range(n)]
         if code == 3:
-            if rng.random() < 0.5:
+            if tc == "f":
                 return [fl(rng.randint(-40, 40)) for _ in range(n)]
-            return [rng.randint(-100, 100) for _ in range(n)]
+            if tc == "u":
+                return [rng.randint(0, 100) for _ in range(n)]
+            if tc == "i" or rng.random() < 0.5:
+                return [rng.randint(-100, 100) for _ in range(n)]
+            return [atom_id(rng.choice([0.1, 1.0 / 3.0, 1e-9, 1e9 + 1e-3])) if rng.random() < 0.2 else fl(rng.randint(-40, 40))
+                    for _ in range(n)]
         if code == 4:
             return sorted(set(rng.randint(-9, 9) for _ in range(n)))
         if code == 5:
@@ -771,11 +813,17 @@ def main(run):
                                [6000, 6001, 6003, 6000, 6002, 6003], [6100 + rng.randint(0, 9)]])
         return []
 
-    def instantiate(c, zs):
+    def nd_dtype():
+        """(dtype or None, kind of content) for a numpy-based individual: mostly what numpy infers, sometimes a non-default dtype"""
+        return rng.choice([(None, None), (None, None), (numpy.float32, "f"), (numpy.int8, "i"), (numpy.float16, "f"), (numpy.uint16, "u")])
+
+    def instantiate(c, zs, dtype=None):
         code = base_code(c)
         vals = [py_atom(z) for z in zs]
         if code in (7, 8):
-            return c()
+            return c(tuple(vals)) if vals else c()
+        if code == 3 and dtype is not None:
+            return c(numpy.array(vals, dtype=dtype))         # a non-default dtype
         if code == 5:
             return c(dict((vals[i], vals[i + 1]) for i in range(0, len(vals), 2)))
         return c(vals)
@@ -819,7 +867,7 @@ def main(run):
             run.oracle_violation("%s: class-level attributes differ" % how, case)
         # content
         if [snapshot(e) for e in obj_items(c, kx)] != [snapshot(e) for e in obj_items(x, kx)] or \
-                (kx in (K_LIST, K_TREE, K_PYLIST) and not all(kind_of(e) is not None or a == e for a, e in zip(list(c), list(x)))):
+                (kx in (K_LIST, K_TREE, K_PYLIST) and not all(kind_of(e) is not None or a == e or (a != a and e != e) for a, e in zip(list(c), list(x)))):
             run.oracle_violation("%s: content differs" % how, case, observed=[repr(obj_items(x, kx)), repr(obj_items(c, kx))])
         if kx == K_ARRAY and c.typecode != x.typecode:
             run.oracle_violation("%s: typecode differs" % how, case)
@@ -971,7 +1019,8 @@ def main(run):
         # initial instances
         roots = []
         for _ in range(rng.choice([1, 1, 1, 2])):
-            ind = instantiate(icls, content_for(code, tc))
+            dt, dk = nd_dtype() if code == 3 else (None, tc)
+            ind = instantiate(icls, content_for(code, dk), dt)
             roots.append(ind)
         setup = []
         for ind in roots:
@@ -1054,15 +1103,21 @@ def main(run):
                 i = rng.randrange(len(roots))
                 proto = force.get("proto", rng.randint(0, 5))
                 before = snapshot(roots[i])
+                impl = rng.choice(["c", "c", "py"])             # the C pickler or the pure Python one
+                redefine = rng.random() < 0.3                     # the names are defined again, differently, before loading
+                names = [[o.__name__, base_code(o) in (7, 8), len(o.reduce_args[2].get("weights", ()))]
+                         for o in inst_mutables(roots[i], None, True).values() if kind_of(o) == K_CLASS]
                 try:
-                    blob = pickle.dumps(roots[i], proto)
-                    c = pickle.loads(blob)
+                    blob = (pickle._dumps if impl == "py" else pickle.dumps)(roots[i], proto)
+                    if redefine:
+                        redefine_classes(names)
+                    c = (pickle._loads if impl == "py" else pickle.loads)(blob)
                 except Exception as e:  # noqa
                     run.oracle_violation("pickle round trip (protocol %d) raised %s: %s" % (proto, type(e).__name__, e),
                                          dict(case, op=["pickle", i, proto], step=step_i))
                     break
                 op = ("pickle", i)
-                case_op = dict(case, op=["pickle", i, proto], step=step_i)
+                case_op = dict(case, op=["pickle", i, proto, impl, "redefined" if redefine else ""], step=step_i)
                 if snapshot(roots[i]) != before:
                     run.oracle_violation("pickling changed the original", case_op)
                 oracle_copy(case_op, "pickle protocol %d" % proto, roots[i], c, proto)
@@ -1071,7 +1126,8 @@ def main(run):
                 exp = {"case": case_op, "snapshot": repr(snapshot(roots[i])),
                        "class": repr(class_snapshot(type(roots[i]))) if is_created_class(type(roots[i])) else None,
                        "desc": (d1[0], d1[1])}
-                fresh_jobs.append({"what": "object", "blob": base64.b64encode(blob).decode()})
+                fresh_jobs.append({"what": "object", "blob": base64.b64encode(blob).decode(), "impl": rng.choice(["c", "py"]),
+                                   "predefine": names if rng.random() < 0.3 else None})
                 fresh_expect.append(exp)
                 pairs.append((roots[i], c, "pickle protocol %d" % proto))
                 roots.append(c)
@@ -1088,11 +1144,17 @@ def main(run):
                 if force_cls is not None:
                     k = [n for n in ks if pyobjs[n] is force_cls][0]
                 c = pyobjs[k]
-                zs = content_for(base_code(c), c.reduce_args[2].get("typecode"))
+                dt, dk = nd_dtype() if base_code(c) == 3 else (None, c.reduce_args[2].get("typecode"))
+                zs = content_for(base_code(c), dk)
                 before_ids = set()
                 for rt in roots:
                     before_ids.update(inst_mutables(rt, None, True))
-                obj = instantiate(c, zs)
+                if base_code(c) in (7, 8) and rng.random() < 0.5:
+                    fv = fit_values(rng, c.weights)                  # the constructor route: Fitness(values)
+                    zs = [atom_id(w) for w in map(operator.mul, fv, c.weights)]
+                    obj = c(fv)
+                else:
+                    obj = instantiate(c, zs, dt)
                 op = ("new", k, zs)
                 oracle_new(dict(case, op=["new", c.__name__, zs], step=step_i), obj, c, before_ids)
                 roots.append(obj)
